@@ -146,7 +146,16 @@ def rule_R7(text, mask):
     return edits
 
 
-AUTO_RULES = {'R1': rule_R1, 'R7': rule_R7}
+R2_PAT = re.compile(r'Some\(&\(')
+
+
+def rule_R2(text, mask):
+    """peek patterns: `Some(&(p, c))` on `iter.peek()` => `Some((p, c))` (the stream wrapper's peek copies the pair;
+    (usize, char) is Copy)."""
+    return [(m.start(), m.end(), 'Some((', 'R2 peek-pattern') for m in R2_PAT.finditer(mask)]
+
+
+AUTO_RULES = {'R1': rule_R1, 'R2': rule_R2, 'R7': rule_R7}
 
 
 # ---------------------------------------------------------------- macro expansion (R3)
@@ -349,7 +358,11 @@ def process_extract(gen, sec, vu_path):
                 raise UnitError(where + ': @result on non-fn')
             hdr = text[:open_rel]
             hm = mask[:open_rel]
-            a = hm.rfind('->')
+            # the return arrow is the first `->` after the parameter list (a where-clause may contain others)
+            fnm = re.search(r'\bfn\s+\w+', hm)
+            po = hm.index('(', fnm.end()) if fnm else -1
+            pc = R.match_close(hm, po) if po >= 0 else -1
+            a = hm.find('->', pc) if pc >= 0 else -1
             if a < 0:
                 raise UnitError('%s: @result but no return type in %s' % (where, item_name))
             w = re.search(r'\bwhere\b', hm[a:])
